@@ -239,8 +239,22 @@ impl Family for NotifyFam {
     fn yields(_op: &NOp) -> Option<bool> {
         None
     }
-    fn m_abortable(_op: &NOp, _phase: u8) -> bool {
-        false
+    /// A task can be cancelled where it is suspended: in `Await` before the notification has been
+    /// received (phase 2 = it consumed the permit inside its poll and is about to return Ready) and
+    /// in `Yield`.  Everything else runs synchronously inside one poll.
+    fn m_abortable(op: &NOp, phase: u8) -> bool {
+        match op {
+            NOp::Await => phase <= 1,
+            NOp::Yield => true,
+            _ => false,
+        }
+    }
+    /// A cancelled task drops its `Notified` (programs with `Abort` use `notify_waiters` only, so
+    /// the dropped future never has a `notify_one` to pass on — that path has scheduling points of
+    /// its own and is exercised by `DropFut`).
+    fn m_on_finish(m: &mut NM, t: usize) {
+        assert!(!matches!(m.slot[t], Slot::Notified(true, _)), "model: cancellation of a waiter notified by notify_one is not modelled");
+        m.slot[t] = Slot::Empty;
     }
     fn objects_of(_op: &NOp) -> Vec<u32> {
         vec![0xC20]
@@ -546,6 +560,33 @@ pub fn program_set(set: &str) -> Vec<Program<NotifyFam>> {
         for b in [vec![NOp::Await], vec![NOp::New, NOp::Enable, NOp::Await]] {
             for ms in [vec![NOp::NotifyOne], vec![NOp::NotifyOne, NOp::NotifyOne], vec![NOp::NotifyOne, NOp::NotifyWaiters]] {
                 out.push(Program::fork_join((), ms, vec![a.clone(), b.clone()]));
+            }
+        }
+    }
+    // a waiter cancelled WHILE notify_waiters is under way (the wake-ups are scheduling points): two
+    // registered waiters, the notifier, and the second (or first) waiter dropping its future or being
+    // aborted in between (seed C19-notify-waiters-wakes-inside-flag-loop was invisible without these)
+    let firsts = [vec![NOp::Await], vec![NOp::New, NOp::Enable, NOp::Await], vec![NOp::New, NOp::Poll, NOp::DropFut]];
+    let droppers = [
+        vec![NOp::New, NOp::Enable, NOp::Yield, NOp::DropFut],
+        vec![NOp::New, NOp::Poll, NOp::Yield, NOp::DropFut],
+        vec![NOp::New, NOp::Enable, NOp::DropFut],
+        vec![NOp::New, NOp::DropFut],
+    ];
+    for a in &firsts {
+        for b in &droppers {
+            for ms in [vec![NOp::NotifyWaiters], vec![NOp::NotifyOne, NOp::NotifyWaiters], vec![NOp::NotifyWaiters, NOp::NotifyOne]] {
+                out.push(Program::fork_join((), ms.clone(), vec![a.clone(), b.clone()]));
+                out.push(Program::fork_join((), ms, vec![b.clone(), a.clone()]));
+            }
+        }
+    }
+    for victim in [1usize, 2] {
+        for w in [vec![NOp::Await], vec![NOp::New, NOp::Enable, NOp::Await]] {
+            for nt in [vec![NOp::NotifyWaiters], vec![NOp::NotifyWaiters, NOp::NotifyWaiters]] {
+                let main = vec![GOp::Spawn(1), GOp::Spawn(2), GOp::Spawn(3), GOp::Abort(victim), GOp::Join(1), GOp::Join(2), GOp::Join(3)];
+                let th = |v: &Vec<NOp>| v.iter().cloned().map(GOp::Op).collect::<Vec<_>>();
+                out.push(Program { cfg: (), threads: vec![main, th(&w), th(&vec![NOp::Await]), th(&nt)] });
             }
         }
     }
